@@ -32,7 +32,7 @@ ASSUMPTIONS = [
     'attribute values have the shapes parsers store: str, or list of str for the multi-valued attributes bs4 knows '
     '(class rel rev accept-charset headers accesskey dropzone); odd values (None, numbers, bytes, nested lists) only on '
     'id, class, title, data-*',
-    'terminates is restated as: returns within 20 CPU-seconds and (on a 10% sample) within 5*10^6 interpreted lines of '
+    'terminates is restated as: returns within 8 CPU-seconds and (on a 10% sample) within 5*10^6 interpreted lines of '
     'soupsieve code, >= 100x the largest count observed on the unchanged tree for trees of this size',
 ]
 
@@ -46,7 +46,10 @@ PSEUDOS = [':any-link', ':empty', ':first-child', ':first-of-type', ':in-range',
            ':current(p)', ':host-context(p)', '&', ':is(:default, :indeterminate)', ':not(:in-range)', ':has(:checked)',
            ':has(> :dir(rtl))', ':has(+ :lang(en))', 'form :default', 'fieldset :disabled', ':enabled:not(:read-only)',
            ':root :dir(ltr)', ':in-range, :out-of-range', 'input:optional', 'legend :enabled', ':not(:disabled)',
-           ':read-write:placeholder-shown', ':is(:link, :any-link)', ':nth-child(odd of :enabled)', '*|*:lang(en)']
+           ':read-write:placeholder-shown', ':is(:link, :any-link)', ':nth-child(odd of :enabled)', '*|*:lang(en)',
+           # coefficients far beyond any sibling count: the answer is arithmetic, the call must still terminate
+           ':nth-child(-n+4000000000)', ':nth-last-of-type(-3n+10000000000000000000000)', ':nth-child(7n-900000000000)',
+           ':nth-of-type(-1000000007n+99999999999999999999)', ':nth-last-child(n+123456789012)', ':nth-child(-2n+30000001 of p)']
 HOSTILE = {
     'type': ['', 'TEXT', 'week', 'Week', 'date', 'month', 'time', 'datetime-local', 'number', 'range', 'radio', 'checkbox', 'submit',
              'x' * 300, 'tel', 'hidden', ' date', 'date ', 'é', '\x00'],
@@ -209,6 +212,10 @@ def run_unit(u):
         cn[k] = cn.get(k, 0) + n
 
     for _ in range(u['n']):
+        if cn.get('budget_exhausted', 0) >= 3:
+            # three calls already ran into the CPU/step budget: the verdict is decided, do not burn the wall-clock watchdog
+            bump('unit_cut_short')
+            break
         tops, how, nh = gen_case(rng)
         try:
             soup = trees.materialise(tops, how)
@@ -218,6 +225,8 @@ def run_unit(u):
         no = odd_values(rng, soup) if rng.random() < .4 else 0
         shape = sig(trees.describe(soup, 300))
         for _c in range(10):
+            if cn.get('budget_exhausted', 0) >= 3:
+                break
             kind, tgt = pick_target(rng, soup)
             sel = rng.choice(PSEUDOS) if rng.random() < .55 else sels.render(sels.gen_list(rng, rng.choice([1, 2]), cfg))
             op = rng.choice(['select', 'select', 'select_one', 'iselect', 'match', 'filter', 'closest'])
@@ -242,14 +251,16 @@ def run_unit(u):
                 sc = monitors.StepCounter(STEP_LIMIT)
                 try:
                     with sc:
-                        st, val = monitors.guarded_call(call)
+                        st, val = monitors.guarded_call(call, budget=8.0)
                 except monitors.BudgetExceeded:
                     st, val = 'steps', None
                 max_steps = max(max_steps, sc.n)
                 bump('step_counted_calls')
             else:
-                st, val = monitors.guarded_call(call)
+                st, val = monitors.guarded_call(call, budget=8.0)
             res['evals'] += 1
+            if st in ('budget', 'steps'):
+                bump('budget_exhausted')
             bump('op:' + op)
             bump('target:' + kind)
             bump('how:' + how)
